@@ -68,6 +68,10 @@ def parseOp (toks : List String) : Option Op :=
   | ["clrf", n, s] => do let n ← parseNRef n; let s ← parseSlot s; pure (.clrf n s)
   | ["takef", n, s, k] => do let n ← parseNRef n; let s ← parseSlot s; let k ← parseIdx "h" k; pure (.takef n s k)
   | ["getf", n, s, k] => do let n ← parseNRef n; let s ← parseSlot s; let k ← parseIdx "h" k; pure (.getf n s k)
+  | ["clonen", r, n] => do let r ← parseCRef r; let n ← n.toNat?; pure (.cloneN r n)
+  | ["dropn", r, n] => do let r ← parseCRef r; let n ← n.toNat?; pure (.dropN r n)
+  | ["downn", r, n] => do let r ← parseCRef r; let n ← n.toNat?; pure (.downN r n)
+  | ["wdropn", r, n] => do let r ← parseCRef r; let n ← n.toNat?; pure (.wdropN r n)
   | ["markalive", r] => do let r ← parseCRef r; pure (.markAlive r)
   | ["finagain", k] => do let k ← parseIdx "h" k; pure (.finAgain k)
   | ["unwrap", k] => do let k ← parseIdx "h" k; pure (.unwrap k)
